@@ -3,6 +3,7 @@
 package lab
 
 import (
+	"github.com/saucelabs/forwarder"
 	"bufio"
 	"bytes"
 	"context"
@@ -180,6 +181,8 @@ func getFlt() (*fltEnv, error) {
 		mk("upstream", ProxyOpts{Upstream: "http://" + e.upstream.Addr})
 		mk("mitm-upstream", ProxyOpts{MITM: true, Upstream: "http://" + e.upstream.Addr})
 		mk("deadup", ProxyOpts{Upstream: "http://" + e.refused})
+		// a PROXY-protocol listener (C13: connections that never get past the header are accounted like any other)
+		mk("pp", ProxyOpts{ProxyProtocol: &forwarder.ProxyProtocolConfig{ReadHeaderTimeout: 150 * time.Millisecond}})
 		if fltErr == nil {
 			flt = e
 		}
